@@ -9,9 +9,9 @@
 (***************************************************************************)
 EXTENDS Repack, TLC
 CONSTANTS Depth,      \* bound on the number of cat calls (mc) / history length (gen)
-          AllPairs,   \* TRUE: every [b,e) of a state is probed; FALSE: boundary ranges
+          AllPairs,   \* every [b,e) (valid and invalid) is probed in states with at most this many frames; boundary ranges beyond
           Gen,        \* TRUE: behaviour generation
-          GenIds,     \* packet ids offered to cat in behaviour generation
+          GenIds,     \* packet ids offered to cat ({} = the whole library)
           Track       \* TRUE: last.seen accumulates the kinds of step taken (vacuity witness)
 VARIABLES rp, ncat, last, hist
 
@@ -92,8 +92,9 @@ NLib == Len(Lib)
 -----------------------------------------------------------------------------
 \* ranges probed in a state with n frames
 Pairs(n) ==
-  IF AllPairs \/ n <= 6 THEN {<<b, e>> \in (-1..(n + 1)) \X (-1..(n + 1)) : TRUE}
-  ELSE {<<b, e>> \in ({-1, 0, 1, 2, n \div 2, n - 2, n - 1, n}) \X ({0, 1, 2, 3, n \div 2 + 1, n - 1, n, n + 1}) : TRUE}
+  IF n <= AllPairs THEN (-1..(n + 1)) \X (-1..(n + 1))
+  ELSE {<<0, n>>, <<0, 1>>, <<0, 2>>, <<1, 2>>, <<1, n>>, <<0, n - 1>>, <<n - 1, n>>, <<n - 2, n>>, <<1, n - 1>>,
+        <<n \div 2, n \div 2 + 3>>, <<-1, 1>>, <<0, 0>>, <<0, n + 1>>, <<2, 1>>, <<n, n>>}
 See(tag) == IF Track THEN last.seen \cup {tag} ELSE {}
 Init == /\ rp = EmptyRp /\ ncat = 0 /\ last = [op |-> "start", ret |-> 0, seen |-> {}] /\ hist = <<>>
 
@@ -106,7 +107,7 @@ DoInit == /\ Bound
 
 DoCat == /\ Bound
          /\ \E k \in 1..NLib :
-              /\ (Gen => Lib[k].id \in GenIds)
+              /\ (GenIds = {} \/ Lib[k].id \in GenIds)
               /\ rp' = CatResult(rp, Lib[k])
               /\ last' = [op |-> "cat", ret |-> IF CatAccepts(rp, Lib[k]) THEN OK ELSE INVALID_PACKET,
                          seen |-> See(IF CatAccepts(rp, Lib[k]) THEN "cat_ok" ELSE IF rp.frames = <<>> THEN "cat_rej_empty" ELSE "cat_rej_keeps")]
